@@ -209,8 +209,8 @@ type timing struct {
 // the larger sizes of one attempt, a super-linear algorithm inflates them in all.
 func runTiming(c TCase) (tm timing, err error) {
 	for attempt := 0; attempt < 4; attempt++ {
-		if tm, err = runTimingOnce(c); err == nil || !strings.Contains(err.Error(), "grows faster than linearly") {
-			return tm, err
+		if tm, err = runTimingOnce(c); err == nil || !strings.Contains(err.Error(), "grows faster than linearly") || tm.Ratio >= 14 {
+			return tm, err // clean, another kind of failure, or clearly quadratic (x16 per x4): no second opinion needed
 		}
 	}
 	return tm, err
@@ -256,7 +256,7 @@ func runTimingOnce(c TCase) (tm timing, err error) {
 
 func TestLinearTime(t *testing.T) {
 	rec := ev.New(prop, "linear-time", fmt.Sprintf("%d adversarial input families (deep/wide containers, many tiny frames/tags/chunks/NAL units, many signatures/recipients, long strings, comment-dense and escape-dense JSON) at 8/16/32/64 KiB: "+
-		"thread CPU time, GC off, min of 5; violation iff t(64K) >= 50 ms and t(64K)/t(16K) > 10 in each of 4 attempts; all non-trivial", len(families)))
+		"thread CPU time, GC off, min of 5; violation iff t(64K) >= 50 ms and t(64K)/t(16K) >= 14, or > 10 in each of 4 attempts; all non-trivial", len(families)))
 	rec.Exhaustive()
 	open := ev.Open(prop, sigNested)
 	for name := range families {
